@@ -436,6 +436,141 @@ def run_session(ctx, systems, variant):
 
 
 # ---------------------------------------------------------------------------
+# process histories: several crystals handled by ONE Python process
+# ---------------------------------------------------------------------------
+PROC_GROUPS_QUICK = [["ab221", "ab411"], ["sc122", "sc114", "bccI112"], ["sgcu3au", "sgwz111"], ["sgsc112", "sgscnd2"]]
+PROC_GROUPS_THOROUGH = [["ab221", "ab411", "ab141", "naclF", "ab122"], ["sc222", "sc124", "sc118"],
+                        ["sc122", "sc114", "sc141", "scnd4", "bccI112"], ["bccP112", "ab112"],
+                        ["sgcu3au", "sgwz111", "sgcu3aur"], ["sgsc112", "sgscnd2", "sgmono112"],
+                        ["sghcp111", "sgab111", "orhcp111"]]
+
+MC_PROC = """---- MODULE MC_SymProcess ----
+EXTENDS %s
+MCSystems == %s
+MCInputs == %s
+MCProc == %s
+%s
+====
+"""
+
+
+def proc_run(names, seed):
+    """Handle the named crystals in this order in one fresh Python process."""
+    import json
+    import subprocess
+    import sys
+
+    env = dict(os.environ, PYTHONWARNINGS="ignore")
+    p = subprocess.run([sys.executable, "-m", "harness.c07_proc", json.dumps(dict(seed=seed, names=list(names)))],
+                       cwd=tlcmod.VERIF, env=env, stdout=subprocess.PIPE, stderr=subprocess.PIPE, timeout=600)
+    for line in p.stdout.decode(errors="replace").splitlines():
+        if line.startswith("C07PROC "):
+            return json.loads(line[8:])
+    return dict(error=p.stderr.decode(errors="replace")[-1500:])
+
+
+def run_process(ctx, variant):
+    from concurrent.futures import ThreadPoolExecutor
+
+    groups = PROC_GROUPS_QUICK if ctx.quick else PROC_GROUPS_THOROUGH
+    names = sorted(set(n for g in groups for n in g))
+    with ThreadPoolExecutor(4) as ex:
+        iso = dict(zip(names, ex.map(lambda n: proc_run([n], ctx.seed), names)))
+    for n, r in iso.items():
+        if isinstance(r, dict):
+            raise tlcmod.MachineryError("isolated process for %s failed: %s" % (n, r.get("error")))
+    iso = {n: r[0] for n, r in iso.items()}
+    sysrec = {n: iso[n]["record"] for n in names}
+    inputs = {n: iso[n]["inputs"] for n in names}
+    maxlen = 2 if ctx.quick else 3
+
+    def module(events):
+        if events is None:
+            return MC_PROC % ("SymProcess", to_tla(sysrec), to_tla(inputs), to_tla(set(names)),
+                              "Alias == [pol |-> pol, hist |-> hist, verdict |-> verdict]")
+        return MC_PROC % ("SymProcessTrace", to_tla(sysrec), to_tla(inputs), to_tla(set(names)),
+                          "MCEvents == {%s}\nTAlias == [id |-> ev.id, hist |-> hist, verdict |-> verdict]"
+                          % ",\n".join(to_tla(e) for e in events))
+
+    def base(policies, ev=""):
+        return ("CONSTANTS\n Systems <- MCSystems\n Inputs <- MCInputs\n ProcSystems <- MCProc\n" + ev +
+                " Variant = \"%s\"\n MaxLen = %d\n Policies = %s\nCHECK_DEADLOCK FALSE\n" % (variant, maxlen, policies))
+    # (1) the model: every ordered history of colliding crystals under every memo policy
+    cfg = ("INIT PInit\nNEXT PNext\n" + base('{"none", "contents", "s2p_shape", "natoms"}') +
+           "ALIAS Alias\nINVARIANT HistoryIndependent\nINVARIANT CoarseMemoInvisible\n")
+    res = ctx.tlc("MC_SymProcess", cfg_text=cfg, extra_files={"MC_SymProcess.tla": module(None)}, requirement=False,
+                  workers=WORKERS, extra_args=("-continue",), keep=True, timeout=3000)
+    disc = {}
+    for inv, tr in res.violations:
+        st = tr[-1][1] if tr else {}
+        h = tuple(st.get("hist", ()))
+        if inv == "HistoryIndependent":
+            ctx.violation("tlc:SymProcess:HistoryIndependent",
+                          "TLC: a process without memo (or with a memo keyed on the table contents) is not history independent",
+                          dict(policy=st.get("pol"), history=list(h), differs=sorted(st.get("verdict", ()))))
+        elif h:
+            disc.setdefault(h, set()).add(st.get("pol"))
+    ctx.extra["process_model_states"] = res.distinct
+    ctx.extra["process_histories_where_a_coarse_memo_shows"] = len(disc)
+    tlcmod.cleanup(res)
+    if not disc:
+        raise tlcmod.MachineryError("no history on which a coarse memo would show: the process systems do not collide")
+    # (2) replay: those histories (both orders occur), each in one real process
+    hs = sorted(disc, key=lambda h: (0 if "s2p_shape" in disc[h] else 1, len(h), h))
+    extra_pairs = [(a, b) for g in groups for a in g for b in g if a != b and (a, b) not in disc]
+    cap = 16 if ctx.quick else 90
+    todo = (hs + extra_pairs[: max(0, 4 if ctx.quick else 20)])[:cap]
+    with ThreadPoolExecutor(4) as ex:
+        runs = list(ex.map(lambda h: proc_run(h, ctx.seed), todo))
+    events = []
+    for h, r in zip(todo, runs):
+        if isinstance(r, dict):
+            ctx.violation("process:crashed", "a process handling %s did not finish" % (list(h),), dict(history=list(h), error=r.get("error")))
+            continue
+        seq = []
+        for item in r:
+            o, i = item["out"], iso[item["sys"]]["out"]
+            seq.append(dict(sys=item["sys"], out={k: o[k] for k in ("arr", "shown", "tables", "exact")},
+                            iso={k: i[k] for k in ("arr", "shown", "tables", "exact")}))
+        events.append(dict(id=len(events), seq=seq, disc=(h in disc)))
+        ctx.count(("process",) + tuple(h))
+    ctx.traces += len(events)
+    ctx.extra["process_histories_replayed"] = len(events)
+    cfg = ("INIT TInit\nNEXT TNext\n" + base('{"none"}', " Events <- MCEvents\n") +
+           "ALIAS TAlias\nINVARIANT ImplHistoryIndependent\nINVARIANT ConformsFresh\nINVARIANT ImplProjectionExact\n"
+           "INVARIANT Discriminates\n")
+    res = ctx.tlc("MC_SymProcess", cfg_text=cfg, extra_files={"MC_SymProcess.tla": module(events)}, requirement=False,
+                  workers=WORKERS, extra_args=("-continue",), keep=True, timeout=3000)
+    seen = {}
+    for inv, tr in res.violations:
+        st = tr[-1][1] if tr else {}
+        for name in (set(st.get("verdict", ())) or {inv}):
+            seen.setdefault(name, st)
+    tlcmod.cleanup(res)
+    for name, st in sorted(seen.items()):
+        evn = events[st["id"]] if "id" in st else None
+        det = None
+        if evn is not None:
+            det = dict(history=[x["sys"] for x in evn["seq"]], specs=[c07_spec(x["sys"]) for x in evn["seq"]], seed=ctx.seed,
+                       differs={x["sys"]: sorted([r for r in x["out"]["arr"] if x["out"]["arr"][r] != x["iso"]["arr"][r]]
+                                                 + (["shown"] if x["out"]["shown"] != x["iso"]["shown"] else [])
+                                                 + (["tables"] if x["out"]["tables"] != x["iso"]["tables"] else []))
+                                for x in evn["seq"]},
+                       tables_in_history={x["sys"]: x["out"]["tables"] for x in evn["seq"]},
+                       tables_in_isolation={x["sys"]: x["iso"]["tables"] for x in evn["seq"]})
+        if name == "Discriminates":
+            raise tlcmod.MachineryError("a replayed history announced as discriminating is not: %s" % det)
+        what = ("C07 %s: a routine's result depends on which crystals the process handled before" % name
+                if name == "ImplHistoryIndependent" else "C07 %s (process histories)" % name)
+        ctx.violation("process:" + name, what, det)
+
+
+def c07_spec(name):
+    from harness import c07_proc
+    return {k: v for k, v in c07_proc.spec_of(name).items()}
+
+
+# ---------------------------------------------------------------------------
 # ./check C07 --replay <file>: re-run exactly the recorded failing case
 # ---------------------------------------------------------------------------
 def run_replay(ctx):
@@ -547,6 +682,11 @@ def run_all(ctx):
     t0 = time.time()
     run_session(ctx, systems, variant)
     ctx.extra["t_session_s"] = round(time.time() - t0, 1)
+
+    # --- process histories: results must not depend on crystals handled earlier in the same process
+    t0 = time.time()
+    run_process(ctx, variant)
+    ctx.extra["t_process_s"] = round(time.time() - t0, 1)
     ctx.extra["cpu_session_s"] = round(sum(os.times()[:4]) - cpu0, 1)
     cpu0 = sum(os.times()[:4])
 
